@@ -253,7 +253,7 @@ pub fn run(args: &Args) -> i32 {
     let plan = if args.quick() {
         Plan { base_depth: 2, ext_depth: 2, chains: vec![(4, 1)], shape_depth: 1, cache: CacheCfg::None, par: AzksParallelismConfig::disabled() }
     } else {
-        Plan { base_depth: 3, ext_depth: 3, chains: vec![(9, 1)], shape_depth: 2, cache: CacheCfg::None, par: AzksParallelismConfig::disabled() }
+        Plan { base_depth: 3, ext_depth: 3, chains: vec![(9, 1)], shape_depth: 1, cache: CacheCfg::None, par: AzksParallelismConfig::disabled() }
     };
     let v = V20 { rep: &rep, continuation: !args.quick() };
     run_plan(args.threads, &plan, &v);
